@@ -7,6 +7,7 @@ import (
 	"fmt"
 	"math"
 	"sort"
+	"strings"
 	"time"
 
 	"github.com/synnaxlabs/cesium"
@@ -52,6 +53,8 @@ type layout struct {
 	seq     int64
 	lo, hi  int64 // extent of all timestamps ever written
 	feat    map[string]int
+	delErr  string
+	edgeTS  []int64
 }
 
 func (l *layout) logf(f string, a ...any) { l.log = append(l.log, fmt.Sprintf(f, a...)) }
@@ -378,6 +381,7 @@ func (l *layout) delete(r *prng.R) string {
 	err := l.db.DeleteTimeRange(ctx, keys, telem.TimeRange{Start: telem.TimeStamp(a), End: telem.TimeStamp(b)})
 	l.logf("delete(%v,[%d,%d)) -> %v", keys, a, b, err)
 	if err != nil {
+		l.delErr = err.Error()
 		return "delete-failed"
 	}
 	for _, k := range keys {
@@ -404,6 +408,14 @@ func rawDomains(db *cesium.DB, k cesium.ChannelKey) ([]rawDomain, error) {
 	return enumerate(u.VerifDomain())
 }
 
+var errEnumerationDiffers = fmt.Errorf("forward and backward domain enumeration differ")
+
+type enumDiff struct{ fwd, back string }
+
+func (e enumDiff) Error() string {
+	return errEnumerationDiffers.Error() + ": forward " + e.fwd + " backward " + e.back
+}
+
 func enumerate(d *verifx.DomainDB) ([]rawDomain, error) {
 	it := d.OpenIterator(verifx.DomainIterRange(telem.TimeRangeMax))
 	defer func() { _ = it.Close() }()
@@ -422,6 +434,44 @@ func enumerate(d *verifx.DomainDB) ([]rawDomain, error) {
 		}
 		out = append(out, rawDomain{int64(tr.Start), int64(tr.End), buf})
 	}
+	// The same enumeration backwards (SeekLast/Prev) must list the same domains: the
+	// domain iterator's index searches (searchGE / searchLE) are part of C10's anchors.
+	var back []telem.TimeRange
+	for ok := it.SeekLast(ctx); ok; ok = it.Prev() {
+		back = append(back, it.TimeRange())
+	}
+	fs, bs := "", ""
+	for _, o := range out {
+		fs += fmt.Sprintf("[%d,%d)", o.S, o.E)
+	}
+	for i := len(back) - 1; i >= 0; i-- {
+		bs += fmt.Sprintf("[%d,%d)", int64(back[i].Start), int64(back[i].End))
+	}
+	// A stored pointer list that is itself out of order or overlapping (a C03/C04
+	// matter: e.g. a DeleteTimeRange that snapped a cut point to timestamp 0) makes the
+	// index searches meaningless; that is not the iterator's fault.
+	sorted := func(trs []telem.TimeRange) bool {
+		for i := 1; i < len(trs); i++ {
+			if trs[i].Start < trs[i-1].End {
+				return false
+			}
+		}
+		return true
+	}
+	fwd := make([]telem.TimeRange, len(out))
+	for i, o := range out {
+		fwd[i] = telem.TimeRange{Start: telem.TimeStamp(o.S), End: telem.TimeStamp(o.E)}
+	}
+	rev := make([]telem.TimeRange, len(back))
+	for i := range back {
+		rev[i] = back[len(back)-1-i]
+	}
+	if !sorted(fwd) || !sorted(rev) {
+		return out, fmt.Errorf("stored domains out of order: forward %s backward %s", fs, bs)
+	}
+	if fs != bs {
+		return out, enumDiff{fs, bs}
+	}
 	return out, nil
 }
 
@@ -430,6 +480,14 @@ func enumerate(d *verifx.DomainDB) ([]rawDomain, error) {
 func (l *layout) verifyRaw() string {
 	for _, k := range allKeys {
 		ds, err := rawDomains(l.db, k)
+		if _, isDiff := err.(enumDiff); isDiff {
+			l.logf("raw(%s) -> %v", chName(k), err)
+			return "domain-enumeration-inconsistent"
+		}
+		if err != nil && strings.HasPrefix(err.Error(), "stored domains out of order") {
+			l.logf("raw(%s) -> %v", chName(k), err)
+			return "stored-domains-out-of-order"
+		}
 		if err != nil {
 			l.logf("raw(%s) -> %v", chName(k), err)
 			return "raw-enumeration-failed"
@@ -456,5 +514,104 @@ func (l *layout) verifyRaw() string {
 			}
 		}
 	}
+	return l.verifyAlignment()
+}
+
+// sampleCount returns the number of values in a raw domain of channel k.
+func sampleCount(k cesium.ChannelKey, data []byte) int {
+	if dt := dataType(k); !dt.IsVariable() {
+		return len(data) / int(dt.Density())
+	}
+	n := 0
+	for len(data) >= 4 {
+		ln := int(binary.LittleEndian.Uint32(data))
+		if 4+ln > len(data) {
+			return -1
+		}
+		data = data[4+ln:]
+		n++
+	}
+	return n
+}
+
+// verifyAlignment checks the storage contract every reader relies on: the k-th value of
+// a data-channel domain [S,E) belongs to the k-th index sample >= S. A data domain cut
+// by DeleteTimeRange whose start was snapped onto an index sample it no longer holds
+// breaks this (a C04 matter); such layouts are not used for C10 verdicts.
+func (l *layout) verifyAlignment() string {
+	idxDoms, err := rawDomains(l.db, keyIdx)
+	if err != nil {
+		return "raw-enumeration-failed"
+	}
+	// covered reports whether [s,e) lies inside one run of contiguous index domains.
+	covered := func(s, e int64) bool {
+		pos := s
+		for _, d := range idxDoms {
+			if d.S <= pos && pos < d.E {
+				pos = d.E
+				if pos >= e {
+					return true
+				}
+			}
+		}
+		return false
+	}
+	for _, k := range dataKeys {
+		ds, err := rawDomains(l.db, k)
+		if err != nil {
+			return "raw-enumeration-failed"
+		}
+		for _, d := range ds {
+			n := sampleCount(k, d.Data)
+			idx := l.in(keyIdx, d.S, d.E)
+			own := l.in(k, d.S, d.E)
+			ok := n == len(own) && n <= len(idx)
+			for i := 0; ok && i < n; i++ {
+				if idx[i].TS != own[i].TS {
+					ok = false
+				}
+			}
+			if !ok {
+				l.logf("align(%s): domain [%d,%d) holds %d values; index samples there %v; model %v", chName(k), d.S, d.E, n, modelTS(idx), modelTS(own))
+				return "data-domain-misaligned-with-index"
+			}
+			// A data domain whose time range is not covered by contiguous index domains
+			// (left behind by a delete that snapped the index and the data channel to
+			// different cut points) cannot be resolved against the index at all.
+			if !covered(d.S, d.E) {
+				l.logf("cover(%s): domain [%d,%d) is not covered by contiguous index domains", chName(k), d.S, d.E)
+				return "data-domain-not-covered-by-index"
+			}
+		}
+	}
 	return ""
+}
+
+// edges returns every domain start and end of every channel (computed once).
+func (l *layout) edges() []int64 {
+	if l.edgeTS != nil {
+		return l.edgeTS
+	}
+	seen := map[int64]bool{}
+	for _, k := range allKeys {
+		ds, err := rawDomains(l.db, k)
+		if err != nil {
+			continue
+		}
+		for _, d := range ds {
+			if !seen[d.S] {
+				seen[d.S] = true
+				l.edgeTS = append(l.edgeTS, d.S)
+			}
+			if !seen[d.E] {
+				seen[d.E] = true
+				l.edgeTS = append(l.edgeTS, d.E)
+			}
+		}
+	}
+	sort.Slice(l.edgeTS, func(i, j int) bool { return l.edgeTS[i] < l.edgeTS[j] })
+	if l.edgeTS == nil {
+		l.edgeTS = []int64{}
+	}
+	return l.edgeTS
 }
